@@ -247,6 +247,12 @@ var queryVariants = []queryVariant{
 	{"no-value", "Foo"},
 	{"plus", "Foo+bar=1"},
 	{"upper-Z", qk("Z")},
+	{"boundary-chars", qk("Az", "A9", "A0", "Aa", "aA", "zZ", "z9", "a0")},
+	{"boundary-chars-bracket", qk("page[z]", "page[Z9]", "page[0a]", "page[a]", "page[A]", "page[9]")},
+	{"lower-a", qk("a")},
+	{"lower-az", qk("az")},
+	{"lower-with-digit", qk("a1b")},
+	{"page-prefix-upper", qk("pagE")},
 	{"lower-z", qk("z")},
 	{"brace", qk("a{")},
 	{"backtick", qk("a`")},
